@@ -366,8 +366,14 @@ def classify(case, obs, spec_exp):
             return SIG_LEN24, "a serialized message of 2^24 bytes passes the send limit test and is framed with length 0"
     if k == "ping_hold":
         return SIG_INTERLEAVE, "a PING answered while a message frame is being written puts the PONG between the frame's header and body"
-    return "C15:%s:%s" % (k, hashlib.sha1((case.impl or "").encode()).hexdigest()[:8]), \
-        "implementation and reference model disagree on %s" % k
+    # anything else: one signature per kind and differing observable
+    keys = sorted(kk for kk in set(obs) | set(spec_exp or {}) if (obs.get(kk) != (spec_exp or {}).get(kk)))
+    if k in ("limits_server", "limits_client") and "text" in keys:
+        a, b = obs.get("text", ""), (spec_exp or {}).get("text", "")
+        da, db = kv(a), kv(b)
+        keys = [kk for kk in ("hs", "send", "recv") if da.get(kk) != db.get(kk)]
+    return "C15:%s:%s" % (k, "+".join(keys) or "differs"), \
+        "implementation and reference model disagree on %s (%s)" % (k, ", ".join(keys))
 
 
 def frame(t, body):
